@@ -58,7 +58,8 @@ pub fn suite(name: &str, thorough: bool) -> Suite {
                 s.depth = if thorough { 5 } else { 4 };
             }
             if name == "C17" {
-                s.kinds = ALL_KINDS.iter().copied().filter(|k| *k != KindId::RangeX).collect();
+                // (the element-size and boxed variants are exercised by C15; leaving them out here keeps the quick tier short)
+                s.kinds = if thorough { ALL_KINDS.iter().copied().filter(|k| *k != KindId::RangeX).collect() } else { small_kinds() };
                 s.depth = if thorough { 5 } else { 4 };
                 s.terms = vec![Term::Drop, Term::Seq(ALL), Term::Seq(1), Term::Seq(0)];
                 s.allow_zero = true;
